@@ -35,6 +35,7 @@ def required(tier):
         "grammars.with_sr_conflict": 50,
         "forests.ambiguous": 200,
         "hash_seeds": 4,
+        "grammars.modular": 10,
     }
 
 
@@ -63,6 +64,24 @@ def gen_grammar(rng):
     return None
 
 
+def gen_modular(rng):
+    """Root importing two files that define terminals (and rules) with the same
+    local names; both terminals become lookaheads of one reduction."""
+    names = rng.sample(["W", "T", "x1", "Za", "k"], 2)
+    t1, t2 = names[0], names[0]  # same local name in both files
+    extra = names[1]
+    la, lb = rng.sample(["a", "b"], 2)
+    files = {
+        la + ".pg": "A: %s | %s A | %s;\nterminals\n%s: \"x\";\n%s: \"p\";\n" % (t1, t1, extra, t1, extra),
+        lb + ".pg": "A: %s | %s A | %s;\nterminals\n%s: \"y\";\n%s: \"q\";\n" % (t2, t2, extra, t2, extra),
+    }
+    alts = ["L %s.A" % la, "L %s.A" % lb, "%s.A %s.A" % (la, lb), "L"]
+    rng.shuffle(alts)
+    files["root.pg"] = "import '%s.pg';\nimport '%s.pg';\nS: %s;\nL: \"l\" | L \"l\" | EMPTY;\n" % (la, lb, " | ".join(alts[: rng.randint(2, 4)]))
+    inputs = ["lx", "ly", "llxx", "xy", "lp", "l", "", "xxy", "lq", "yx"]
+    return {"files": files, "grammar": "\n".join("# %s\n%s" % kv for kv in sorted(files.items())), "inputs": inputs}
+
+
 def run(ctx):
     from pgverif import cfg, runner
 
@@ -76,6 +95,9 @@ def run(ctx):
             alph = "".join(g.tdefs[t].text for t in g.terms)[:3]
             inputs = [w for w in cfg.all_strings(alph, 4) if cfg.Chart(g, w, skip=cfg.skip_none).is_sentence()][:12]
             batch.append({"grammar": g.text(), "inputs": inputs})
+        for _ in range(4):
+            batch.append(gen_modular(ctx.rng))
+            ctx.count("grammars.modular")
         seeds = [str(ctx.rng.randrange(1, 2**31)) for _ in range(nproc - 1)] + ["0"]
         outs = []
         procs = []
@@ -122,7 +144,7 @@ def run(ctx):
                     keys = [k for k in r0 if r0[k] != r.get(k)]
                     ctx.violation(
                         "differs-across-hash-seeds:" + ",".join(keys),
-                        {"grammar": item["grammar"], "inputs": item["inputs"], "seeds": [ref_seed, hs]},
+                        {"grammar": item["grammar"], "files": item.get("files"), "inputs": item["inputs"], "seeds": [ref_seed, hs]},
                         "PYTHONHASHSEED=%s and %s disagree on %s: %s vs %s" % (ref_seed, hs, keys, str([r0[k] for k in keys])[:300], str([r.get(k) for k in keys])[:300]),
                     )
                     break
@@ -137,18 +159,44 @@ def record(item):
     from pgverif import glrobs, pgx
 
     def one():
+        import shutil
+
+        moddir = None
+        if item.get("files"):
+            moddir = tempfile.mkdtemp(prefix="pgv-c16m-")
+            for fn, ft in item["files"].items():
+                with open(os.path.join(moddir, fn), "w") as fh:
+                    fh.write(ft)
+        try:
+            return one_in(moddir)
+        finally:
+            if moddir:
+                shutil.rmtree(moddir, ignore_errors=True)
+
+    def one_in(moddir):
         rec = {"tables": {}, "sr": [], "rr": [], "forests": [], "ambiguous": 0, "errors": []}
         text = item["grammar"]
         for kind in ("LR", "GLR"):
             for tb in ("LALR", "SLR"):
                 try:
-                    pg = pgx.grammar(text)
+                    if item.get("files"):
+                        with pgx.quiet():
+                            import parglare
+
+                            pg = parglare.Grammar.from_file(os.path.join(moddir, "root.pg"))
+                    else:
+                        pg = pgx.grammar(text)
                     kw = dict(tables=pgx.LALR if tb == "LALR" else pgx.SLR)
                     try:
                         p = pgx.lr(pg, **kw) if kind == "LR" else pgx.glr(pg, **kw)
                     except Exception as e:  # noqa: BLE001
                         rec["tables"][kind + tb] = "ctor:" + type(e).__name__ + ":" + str(e)[:200]
                         continue
+                    if moddir:
+                        # never let the table cache of one construction feed the next (KF-C12-1)
+                        for fn in os.listdir(moddir):
+                            if ".pgc" in fn:
+                                os.remove(os.path.join(moddir, fn))
                     ser = json.dumps(table_to_serializable(p.table), sort_keys=True)
                     with tempfile.NamedTemporaryFile(suffix=".pgc") as f:
                         save_table(f.name, p.table)
@@ -189,7 +237,7 @@ def replay(case, ctx):
     outs = []
     tmpd = tempfile.mkdtemp(prefix="pgv-c16-")
     with open(os.path.join(tmpd, "batch.json"), "w") as f:
-        json.dump([{"grammar": case["grammar"], "inputs": case["inputs"]}], f)
+        json.dump([{"grammar": case["grammar"], "files": case.get("files"), "inputs": case["inputs"]}], f)
     for hs in case.get("seeds", ["0", "1"]):
         env = runner.worker_env()
         env["PYTHONHASHSEED"] = str(hs)
